@@ -18,18 +18,22 @@ Definition round_half_even (s : Q) : Z :=
   | Eq => if Z.even fl then fl else (fl + 1)%Z
   end.
 
-Definition f32_round (q : Q) : Q :=
+(* round to a binary floating-point grid with [prec] significand bits (24 = f32, 53 = f64) *)
+Definition fp_round (prec : Z) (q : Q) : Q :=
   if Qeq_bool q 0 then 0
   else
     let a := Qabs q in
     let n := Qnum a in
     let d := Zpos (Qden a) in
-    let e0 := (Z.log2 n - Z.log2 d - 23)%Z in
-    let e := if Qle_bool (inject_Z (2 ^ 24)) (a * pow2 (- e0)) then (e0 + 1)%Z
-             else if Qle_bool (inject_Z (2 ^ 23)) (a * pow2 (- e0)) then e0 else (e0 - 1)%Z in
+    let e0 := (Z.log2 n - Z.log2 d - (prec - 1))%Z in
+    let e := if Qle_bool (inject_Z (2 ^ prec)) (a * pow2 (- e0)) then (e0 + 1)%Z
+             else if Qle_bool (inject_Z (2 ^ (prec - 1))) (a * pow2 (- e0)) then e0 else (e0 - 1)%Z in
     let m := round_half_even (a * pow2 (- e)) in
     let r := inject_Z m * pow2 e in
     Qred (if Qle_bool 0 q then r else - r).
+
+Definition f32_round (q : Q) : Q := fp_round 24 q.
+Definition f64_round (q : Q) : Q := fp_round 53 q.
 
 (* the f32 literal 0.1 *)
 Definition f32_0_1 : Q := 13421773 # 134217728.
